@@ -474,7 +474,7 @@ func (u *Universe) TLA() []byte {
 func ConstCfg(methods, spellings []string, maxSpell int, hdrCross bool, stacks []string, uiModes []bool) string {
 	return "CONSTANTS\n  Templates <- cTemplates\n  DocOps <- cDocOps\n  EmbOps <- cEmbOps\n  EmbOrder <- cEmbOrder\n" +
 		"  ParamVal <- cParamVal\n  ParamBk <- cParamBk\n  IntParams <- cIntParams\n  Tok <- cTok\n  Variant <- cVariant\n  EffectOf <- cEffectOf\n" +
-		fmt.Sprintf("  Methods = %s\n  Spellings = %s\n  MaxSpell = %d\n  Stacks = %s\n  HdrCross = %s\n  UiModes = %s\n  DropReadOnly = %s\n", qset(methods), qset(spellings), maxSpell, qset(stacks), tlaBool(hdrCross), tlaBoolSet(uiModes), dropReadOnly())
+		fmt.Sprintf("  Methods = %s\n  Spellings = %s\n  MaxSpell = %d\n  Stacks = %s\n  HdrCross = %s\n  UiModes = %s\n  DropReadOnly = %s\n  EmptyEnvCounts = "+emptyEnvCounts()+"\n", qset(methods), qset(spellings), maxSpell, qset(stacks), tlaBool(hdrCross), tlaBoolSet(uiModes), dropReadOnly())
 }
 
 // dropReadOnly: VERIF_C18_DROPRO=<flavour,...> selects the named alternative of the spec in which
@@ -485,4 +485,13 @@ func dropReadOnly() string {
 		return "{}"
 	}
 	return qset(strings.Split(v, ","))
+}
+
+// emptyEnvCounts: VERIF_C18_EMPTYENV=1 selects the named alternative of the spec in which an
+// environment variable that exists but is empty counts as a value (never set in a normal run).
+func emptyEnvCounts() string {
+	if os.Getenv("VERIF_C18_EMPTYENV") == "1" {
+		return "TRUE"
+	}
+	return "FALSE"
 }
